@@ -63,6 +63,39 @@ func vfcDirectedCfgs() []vfcCfg {
 	}
 }
 
+// vfcStaleHandleData: see family 3b in vfcDirected.
+func vfcStaleHandleData(c *vfcClient, R uint64) {
+	fileMode := vfSattr{Mode: u32p(0644)}
+	c.create(R, "old", 0, fileMode, "")
+	ho := c.handleOf("old")
+	c.write(ho, "small", 0, []byte{1, 2, 3, 4, 5, 6, 7, 8, 9, 10}, 2)
+	c.create(R, "new", 0, fileMode, "")
+	c.write(c.handleOf("new"), "small", 0, []byte{7, 7, 7}, 2)
+	c.getattr(ho)
+	c.remove(R, "old")
+	c.rename(R, "new", R, "old")
+	c.setattr(ho, vfSattr{Size: u64p(10)}) // the size the old object had
+	c.read(ho, "small", 0, 16)
+	c.getattr(ho)
+	c.write(ho, "small", 1, []byte{9}, 2)
+	c.read(ho, "small", 0, 16)
+	c.lookup(R, "old")
+	c.read(c.handleOf("old"), "small", 0, 16)
+}
+
+// vfcDirectedData runs the data-path probes (appended to the "data" profile).
+func vfcDirectedData(t *testing.T, tr *vfTrace, firstHist int, seed int64) int {
+	n := 0
+	for _, cfg := range []vfcCfg{{TTL: "def", Neg: true, Dir: true, Profile: "data"}, {TTL: "min", Profile: "data"}, {TTL: "def", T: 4, Profile: "data"}} {
+		c := vfcNewClient(t, tr, cfg, firstHist+n, seed)
+		vfcStaleHandleData(c, c.hs[0])
+		c.flush()
+		c.env.Close()
+		n++
+	}
+	return n
+}
+
 // vfcDirected runs the probe families; returns the number of histories written.
 func vfcDirected(t *testing.T, tr *vfTrace, firstHist int, seed int64) int {
 	n := 0
@@ -129,6 +162,28 @@ func vfcDirected(t *testing.T, tr *vfTrace, firstHist int, seed int64) int {
 				})
 			}
 		}
+		// ---- family 1b: the listing of a NESTED directory is cached while its parent's is not, then
+		// the parent is renamed away and both are made again
+		run(cfg, func(c *vfcClient, R uint64) {
+			c.mkdir(R, "a", dirMode)
+			a := c.handleOf("a")
+			c.mkdir(a, "s", dirMode)
+			s1 := c.handleOf("a", "s")
+			c.create(s1, "f", 0, fileMode, "")
+			c.readdir(s1, false)
+			c.readdir(s1, true)
+			c.lookup(s1, "f")
+			c.rename(R, "a", R, "z")
+			c.mkdir(R, "a", dirMode)
+			a2 := c.fresh(R, "a")
+			c.mkdir(a2, "s", dirMode)
+			s2 := c.fresh(a2, "s")
+			c.probeDir(s2, "f", "g")
+			c.probeDir(c.fresh(c.fresh(R, "z"), "s"), "f")
+		})
+		// ---- family 3b: a handle outlives its object and the name is re-populated by RENAME; a
+		// request through the old handle may fail, but may not report success without its effect
+		run(cfg, vfcStaleHandleData)
 		// ---- family 2: the listing of a directory is cached, then every mutator changes its entries
 		run(cfg, func(c *vfcClient, R uint64) {
 			c.mkdir(R, "a", dirMode)
